@@ -224,7 +224,58 @@ class Spec(core.PropSpec):
     def extra_evidence(self, tier, seed):
         from simkit.simloader import stub_validation
         sv = stub_validation(3 if tier == "quick" else 25, seed)
-        return {"stub_validation": sv, "traces_validated_against_impl": sv["batches_compared"]}
+        il = self._validate_interleaved_loader(2 if tier == "quick" else 12, seed)
+        return {"stub_validation": sv, "stub_validation_interleaved_loader": il,
+                "traces_validated_against_impl": sv["batches_compared"] + il["batches_compared"]}
+
+    @staticmethod
+    def _validate_interleaved_loader(n_worlds, seed):
+        """the same interleaved world through InterleavedSampler.get_data_loader with the REAL multi-process DataLoader and with
+        the simulated one: delivered batches must be identical (stub validation only)"""
+        import random
+        from simkit import env
+        env.import_kappadata()
+        import kappadata.samplers.interleaved_sampler as ils
+        from kappadata.wrappers import ModeWrapper
+        from simkit.chooser import Chooser
+        from simkit.deep import deep_diff
+        from simkit.simloader import SimDataLoader, dataloader_seam
+        from .simdata import IdDataset, TagCollator
+        rng = random.Random(f"c05-real/{seed}")
+        worlds = batches = 0
+        mism = []
+        while worlds < n_worlds:
+            w = T.gen_world(rng, max_n=10, max_cfg=2)
+            ref = T.reference(w)
+            if not w["configs"] or ref is None or len(ref) > 120 or w["main_kind"] == "dist" or any(c["kind"] in ("real_seq", "dist_seq") for c in w["configs"]):
+                continue
+            worlds += 1
+            sizes = [w["M"]] + [c["m"] for c in w["configs"]]
+            runs = []
+            for which in ("real", "sim"):
+                datasets = [ModeWrapper(IdDataset(i, m), mode="index x") for i, m in enumerate(sizes)]
+                collators = [TagCollator(f"T{i}") for i in range(len(sizes))]
+                s = T.build(w, [], datasets=datasets, collators=collators)
+
+                class L(SimDataLoader):
+                    chooser = Chooser(seed=worlds)
+                    trace = []
+                    created = []
+
+                out = []
+                if which == "real":
+                    for b in s.get_data_loader(num_workers=2):  # no list(): __len__ raises NotImplementedError by design
+                        out.append(b)
+                else:
+                    with dataloader_seam(L, ils):
+                        for b in s.get_data_loader(num_workers=2):
+                            out.append(b)
+                runs.append(out)
+            batches += len(runs[0])
+            d = deep_diff(runs[0], runs[1])
+            if d:
+                mism.append(dict(world=w, diff=d))
+        return dict(worlds_compared_with_real_multiprocess_DataLoader=worlds, batches_compared=batches, mismatches=len(mism), examples=mism[:1])
 
 
 SPEC = Spec()
